@@ -1539,3 +1539,181 @@ def m_string_len(ex, st, func, args, argtys, dest_ty):
 def m_string_deref(ex, st, func, args, argtys, dest_ty):
     cs = deref(args[0])
     return [("ret", Ref([SymStr("own", chars=list(cs))]), None)]
+
+
+# ------------------------------------------------------------------ slice iterators used by index_transaction_sats
+
+@model(r"core::slice::<impl \[.*\]>::chunks_exact$")
+def m_chunks_exact(ex, st, func, args, argtys, dest_ty):
+    arr = list(deref(args[0]))
+    n = args[1]
+    usable = len(arr) - len(arr) % n
+    return [("ret", Opaque("chunks", {"arr": arr[:usable], "n": n, "pos": 0}), None)]
+
+
+@model(r"^<ChunksExact<'_, .*> as Iterator>::next$")
+def m_chunks_exact_next(ex, st, func, args, argtys, dest_ty):
+    return m_chunks_next(ex, st, func, args, argtys, dest_ty)
+
+
+@model(r"^<std::slice::Iter<'_, .*> as Iterator>::flat_map::<.*>$")
+def m_flat_map(ex, st, func, args, argtys, dest_ty):
+    it = args[0]
+    if not (isinstance(it, Opaque) and it.what == "slice_iter"):
+        raise Unsupported("flat_map over %r" % (it,))
+    return [("ret", Opaque("flat_map", {"outer": it, "f": args[1], "inner": None}), None)]
+
+
+@model(r"^<FlatMap<.*> as Iterator>::next$")
+def m_flat_map_next(ex, st, func, args, argtys, dest_ty):
+    fm = deref(args[0])
+    d = fm.data
+    while True:
+        inner = d["inner"]
+        if inner is not None:
+            di = inner.data
+            if di["pos"] < len(di["arr"]):
+                chunk = di["arr"][di["pos"]:di["pos"] + di["n"]]
+                di["pos"] += di["n"]
+                return [("ret", some(Ref([Container("slice", chunk)])), None)]
+            d["inner"] = None
+        outer = d["outer"].data
+        if outer["pos"] >= len(outer["arr"]):
+            return [("ret", none(), None)]
+        elem = outer["arr"][outer["pos"]]
+        outer["pos"] += 1
+        # the mapping closure must be `|slice| slice.chunks_exact(k)`: run it (pure) to get the inner iterator
+        res = call_closure(ex, st, d["f"], [Ref([elem])])
+        if len(res) != 1 or res[0][0] != "ret" or not (isinstance(res[0][1], Opaque) and res[0][1].what == "chunks"):
+            raise Unsupported("flat_map closure is not a chunks iterator")
+        d["inner"] = res[0][1]
+
+
+@model(r"^<FlatMap<.*> as Iterator>::flatten$")
+def m_flat_map_flatten(ex, st, func, args, argtys, dest_ty):
+    return [("ret", Opaque("flatten", args[0]), None)]
+
+
+@model(r"^<std::slice::Iter<'_, .*> as Iterator>::map::<.*>$")
+def m_iter_map(ex, st, func, args, argtys, dest_ty):
+    return [("ret", Opaque("map_iter", {"it": args[0], "f": args[1]}), None)]
+
+
+@model(r"^<std::iter::Map<std::slice::Iter<'_, .*>, .*> as Iterator>::sum::<usize>$")
+def m_map_sum(ex, st, func, args, argtys, dest_ty):
+    d = args[0].data
+    it = d["it"].data
+    total = 0
+    for elem in it["arr"][it["pos"]:]:
+        res = call_closure(ex, st, d["f"], [Ref([elem])])
+        if len(res) != 1 or res[0][0] != "ret":
+            raise Unsupported("sum closure forks")
+        total = total + res[0][1]
+    return [("ret", total, None)]
+
+
+@model(r"^<std::slice::Iter<'_, .*> as Iterator>::enumerate$")
+def m_slice_iter_enumerate(ex, st, func, args, argtys, dest_ty):
+    args[0].data["enum"] = True
+    return [("ret", args[0], None)]
+
+
+@model(r"^<Enumerate<std::slice::Iter<'_, .*>> as Iterator>::next$|^<std::slice::Iter<'_, .*> as Iterator>::next$")
+def m_slice_iter_next(ex, st, func, args, argtys, dest_ty):
+    it = deref(args[0])
+    d = it.data
+    if d["pos"] >= len(d["arr"]):
+        return [("ret", none(), None)]
+    i = d["pos"]
+    d["pos"] += 1
+    r = Ref([d["arr"][i]])
+    return [("ret", some(Struct([i, r]) if d.get("enum") else r), None)]
+
+
+@model(r"^Vec::<.*>::with_capacity$")
+def m_vec_with_capacity(ex, st, func, args, argtys, dest_ty):
+    return [("ret", Container("vec"), None)]
+
+
+@model(r"^Vec::<.*>::clear$")
+def m_vec_clear(ex, st, func, args, argtys, dest_ty):
+    del deref(args[0])[:]
+    return [("ret", Struct([]), None)]
+
+
+@model(r"^Vec::<.*>::extend_from_slice$|^<Vec<u8> as Extend<&u8>>::extend::<&\[u8(; \d+)?\]>$|^<Vec<u8> as Extend<u8>>::extend::<\[u8; \d+\]>$")
+def m_vec_extend_slice(ex, st, func, args, argtys, dest_ty):
+    deref(args[0]).extend(list(deref(args[1])))
+    return [("ret", Struct([]), None)]
+
+
+@model(r"^<Vec<u8> as Extend<&u8>>::extend::<Flatten<FlatMap<.*>>>$")
+def m_vec_extend_flatten(ex, st, func, args, argtys, dest_ty):
+    fl = args[1]
+    fm = fl.data
+    v = deref(args[0])
+    while True:
+        res = m_flat_map_next(ex, st, func, [fm], argtys, dest_ty)
+        e = res[0][1]
+        if e.variant == 0:
+            break
+        v.extend(list(deref(e.fields[0])))
+    return [("ret", Struct([]), None)]
+
+
+@model(r"^<&\[u8\] as TryInto<\[u8; (\d+)\]>>::try_into$|^<\[u8; (\d+)\] as TryFrom<&\[u8\]>>::try_from$")
+def m_slice_to_array(ex, st, func, args, argtys, dest_ty):
+    n = int(re.search(r"\[u8; (\d+)\]", func).group(1))
+    arr = list(deref(args[0]))
+    if len(arr) != n:
+        return [("ret", err(Opaque("TryFromSliceError")), None)]
+    return [("ret", ok(Struct(arr)), None)]
+
+
+@model(r"^<\[u8(; \d+)?\] as (std::ops::)?Index<(std::ops::)?Range<usize>>>::index$")
+def m_slice_range(ex, st, func, args, argtys, dest_ty):
+    arr = list(deref(args[0]))
+    r = deref(args[1])
+    lo, hi = r[0], r[1]
+    if not (is_conc(lo) and is_conc(hi)):
+        raise Unsupported("symbolic slice range")
+    if lo > hi or hi > len(arr):
+        return [("panic", "slice index out of range", None)]
+    return [("ret", Ref([Container("slice", arr[lo:hi])]), None)]
+
+
+@model(r"core::num::<impl (u16|u32|u64|u128)>::from_le_bytes$")
+def m_from_le_bytes(ex, st, func, args, argtys, dest_ty):
+    bs = list(args[0])
+    if all(is_conc(b) for b in bs):
+        return [("ret", sum(b << (8 * i) for i, b in enumerate(bs)), None)]
+    return [("ret", sum((zint(b) * (256 ** i) for i, b in enumerate(bs)), z3.IntVal(0)), None)]
+
+
+@model(r"Option::<.*>::take$")
+def m_option_take(ex, st, func, args, argtys, dest_ty):
+    base = cref(args[0])
+    e = base.get()
+    base.set(Enum(e.ty, 0, []))
+    return [("ret", e, None)]
+
+
+@model(r"^Amount::to_sat$|bitcoin::Amount::to_sat$")
+def m_amount_to_sat(ex, st, func, args, argtys, dest_ty):
+    a = args[0]
+    return [("ret", a[0] if isinstance(a, Struct) else a, None)]
+
+
+@model(r"^(ordinals::varint::)?encode_to_vec$")
+def m_varint_encode_to_vec(ex, st, func, args, argtys, dest_ty):
+    """LEB128 push for a concrete value (element counts are concrete on a path); the real
+    encoder is decided separately under C26"""
+    n = args[0]
+    if not is_conc(n):
+        raise Unsupported("varint::encode_to_vec of a symbolic value in the lifted crate")
+    v = deref(args[1])
+    while n >> 7 > 0:
+        v.append((n & 0x7f) | 0x80)
+        n >>= 7
+    v.append(n)
+    return [("ret", Struct([]), None)]
